@@ -40,7 +40,9 @@ def templates : List (List TPart) := [
   [.prefix, .lit (strText "|"), .msg, .lit (strText "|"), .pos, .lit (strText "/"), .len],
   [.msg, .newline, .prefix, .lit (strText ":"), .pos],
   [.newline, .msg],
-  [.pos]
+  [.pos],
+  -- `"{\n{msg}:{pos}"`: a brace followed by a line break stands for itself, as one literal that holds the line break
+  [.lit [{ cp := 123, w := 1 }, { cp := 10, w := 0 }], .msg, .lit (strText ":"), .pos]
 ]
 
 end IndicatifModel
